@@ -5,11 +5,15 @@ import (
 	"errors"
 	"fmt"
 	"io"
+	"os/exec"
 	"strings"
+	"time"
 
 	"verif/mc/drive"
 	"verif/mc/fw"
 	. "verif/mc/refsem"
+
+	lang "github.com/alligator/jqawk/src"
 )
 
 // C03: input is a JSON value stream: incremental, chunking-independent, faults reported.
@@ -723,6 +727,117 @@ func c03BigCheck(c *fw.Ctx, b c03Big) *fw.Violation {
 var c03BigSizes = []int{511, 512, 513, 4095, 4096, 4097, 32768, 65535, 65536, 65537, 65600, 70000, 100000, 131071, 131072, 131073, 200000, 300001}
 var c03BigChunks = []int{0, 1 << 20, 131072, 100000, 65537, 65536, 65535, 32768, 10000, 4097, 4096, 4095, 1000, 512, 511, 64}
 
+// ----- the real binary fed through a pipe that pauses after every value -----
+
+type c03Pipe struct {
+	Form string `json:"form"` // "pipe"
+	Prog int    `json:"prog"`
+	Strm int    `json:"stream"`
+}
+
+var c03PipeProgs = []string{
+	`BEGINFILE { print "value", $ }`,
+	`BEGINFILE { printf("%v;", $) }`,
+	`BEGINFILE { printf("<%v>", $); print "" } ENDFILE { printf(".") }`,
+	`{ printf("%v,", $) } ENDFILE { printf("|") }`,
+	`BEGINFILE { n++; if (n == 2) { print "two" } else { printf("%s", n) } }`,
+	`BEGINFILE { printf("%3000s#", $) }`,
+}
+
+var c03PipeStreams = [][]string{
+	{`1`, `"a"`, `{"a":1}`, `[1,2]`, `null`},
+	{`[1,2]`, `[]`, `[3]`},
+	{`"x"`, `"y"`},
+}
+
+// c03PipeWait is generous by four orders of magnitude: a value's output normally arrives within a millisecond.
+const c03PipeWait = 45 * time.Second
+
+func c03PipeCheck(c *fw.Ctx, ps c03Pipe) *fw.Violation {
+	prog, vals := c03PipeProgs[ps.Prog], c03PipeStreams[ps.Strm]
+	js, err := lang.VerifAST(prog)
+	if err != nil {
+		panic("c03: pipe program does not parse: " + prog)
+	}
+	p, err := FromImplAST(js)
+	if err != nil {
+		panic(err)
+	}
+	// the model's cumulative output after each value (the stream is still open: no ENDFILE... the file ends only at EOF)
+	var want []string
+	var nodes []*JNode
+	for _, v := range vals {
+		n, _ := ParseJSON(v)
+		nodes = append(nodes, n)
+		want = append(want, RunProgram(p, []ModelFile{{Name: "<stdin>", Values: nodes}}, nil, probeKeyOrder, 0).Stdout)
+	}
+	cmd := exec.Command(fw.JqawkBin(), prog)
+	stdin, _ := cmd.StdinPipe()
+	stdout, _ := cmd.StdoutPipe()
+	var stderr strings.Builder
+	cmd.Stderr = &stderr
+	if err := cmd.Start(); err != nil {
+		panic(err)
+	}
+	c.Evals++
+	c.Traces++
+	type chunk struct {
+		b   []byte
+		err error
+	}
+	ch := make(chan chunk, 64)
+	go func() {
+		for {
+			buf := make([]byte, 65536)
+			n, err := stdout.Read(buf)
+			ch <- chunk{buf[:n], err}
+			if err != nil {
+				return
+			}
+		}
+	}()
+	got := ""
+	fail := func(what string, i int) *fw.Violation {
+		cmd.Process.Kill()
+		cmd.Wait()
+		return &fw.Violation{What: what, Detail: map[string]any{"program": prog, "values written so far": vals[:i+1], "want_stdout_so_far": clip(want[i]), "got_stdout_so_far": clip(got), "stderr": stderr.String()}}
+	}
+	for i, v := range vals {
+		if _, err := io.WriteString(stdin, v+"\n"); err != nil {
+			return fail("the binary stopped reading its input", i)
+		}
+		c.Transitions++
+		deadline := time.After(c03PipeWait)
+		for len(got) < len(want[i]) {
+			select {
+			case k := <-ch:
+				got += string(k.b)
+				if k.err != nil && len(got) < len(want[i]) {
+					return fail("standard output ended before the output of a complete value", i)
+				}
+			case <-deadline:
+				return fail(fmt.Sprintf("a complete value and one following byte were written to the binary's input, the input then paused, and the value's output did not appear within %v", c03PipeWait), i)
+			}
+		}
+		if got != want[i] {
+			return fail("the output written so far is not the output of the complete values", i)
+		}
+	}
+	stdin.Close()
+	for {
+		k := <-ch
+		got += string(k.b)
+		if k.err != nil {
+			break
+		}
+	}
+	cmd.Wait()
+	final := RunProgram(p, []ModelFile{{Name: "<stdin>", Values: nodes}}, nil, probeKeyOrder, 0)
+	_ = final
+	c.Outcome("pipe: incremental")
+	return nil
+}
+
 var c03Values = []string{`1`, `"a"`, `[]`, `[1,2]`, `{"a":1}`, `null`, `true`, `-0.5e1`}
 
 func c03NeedsSep(prev, next string) bool {
@@ -844,7 +959,7 @@ func init() {
 		Rule: "value streams: all sequences of <= 3 values over {1, \"a\", [], [1,2], {\"a\":1}, null, true, -0.5e1} x separators {none where the grammar allows, blank, newline} x trailing newline, run with two programs (per-value output; a counter across values); " +
 			"for each stream: every chunking when it is short, otherwise every schedule with <= k deviating Read answers (1 byte, up to each value boundary, boundary+1, (0,nil), last bytes together with EOF) plus the all-one-byte schedule; every truncation point; a sticky read error at every position (alone and together with the last bytes); " +
 			"every single-byte replacement and insertion from 10 bytes at every position; plus fixed faulty streams; SEVERAL INPUTS: 5 first inputs x all later inputs of <= 2 values, both readers explored, every truncation point and a read error at every position (offset 0 included) of the later input, also as third of three inputs, " +
-			"with the monitor also flagging any Read on a later input while output of the earlier inputs is outstanding; LARGE VALUES: one value of 18 sizes around 512 B ... 300 kB (buffer thresholds) after 0 / 3 and before 1 / 5 / 64 / 5000 small records, delivered in 16 fixed Read sizes; oracle: an independent RFC 8259 stream scanner splits the bytes into complete values + clean/error/truncated, the model gives the output of the complete values, " +
+			"with the monitor also flagging any Read on a later input while output of the earlier inputs is outstanding; THE BINARY BEHIND A PIPE: 6 programs (newline-terminated output, printf without a newline, mixtures, 3000-byte fields) x 3 streams, each value written with one following byte and the next one held back until the value's output has arrived (generous 45 s limit, normal latency < 1 ms); LARGE VALUES: one value of 18 sizes around 512 B ... 300 kB (buffer thresholds) after 0 / 3 and before 1 / 5 / 64 / 5000 small records, delivered in 16 fixed Read sizes; oracle: an independent RFC 8259 stream scanner splits the bytes into complete values + clean/error/truncated, the model gives the output of the complete values, " +
 			"a fault must be a JSON error naming the file, and a monitor on the reader/writer pair flags any Read issued while a complete value plus one following byte is already handed out and that value's output is not yet written; states = choice points (Read calls) visited; transitions = Read answers given",
 		Plan: func(t fw.Tier) int { return len(c03Values)*16 + 1 + len(c03MultiFirst) + len(c03BigSizes) },
 		Bound: func(t fw.Tier) string {
@@ -856,6 +971,21 @@ func init() {
 		Assumptions: []string{"reference stream scanner mc/refsem/json.go", "a value that ends exactly where the reader fails (no following byte delivered) may or may not count as complete", "the monitor assumes every value produces output (the programs print per value)"},
 		Run: func(c *fw.Ctx, u int) {
 			if u == len(c03Values)*16 {
+				stalled := false // one stalled pipe is enough: every further one would wait out the limit again
+				for pi := range c03PipeProgs {
+					for si := range c03PipeStreams {
+						if stalled {
+							continue
+						}
+						ps := c03Pipe{Form: "pipe", Prog: pi, Strm: si}
+						c.Do(func() any { return ps }, func() *fw.Violation {
+							v := c03PipeCheck(c, ps)
+							stalled = stalled || v != nil
+							return v
+						})
+					}
+				}
+				c.State("the binary behind a pausing pipe")
 				for i, fx := range c03Fixed {
 					fx, i := fx, i
 					ex := c03Model(0, fx.first)
@@ -904,9 +1034,15 @@ func init() {
 			var probe struct {
 				Files []c03MultiFile `json:"files"`
 				Size  int            `json:"size"`
+				Form  string         `json:"form"`
 			}
 			if !unmarshal(raw, &probe) {
 				return nil
+			}
+			if probe.Form == "pipe" {
+				var ps c03Pipe
+				unmarshal(raw, &ps)
+				return c03PipeCheck(c, ps)
 			}
 			if probe.Size > 0 {
 				var b c03Big
